@@ -54,7 +54,8 @@ def run(rep, tier, seed, model_ok=True, effort=1):
     rep.rule = ("every status git can report for a file (clean, modified-unstaged, modified-staged, both, added, deleted, renamed, untracked) x "
                 "{pattern file, unrelated file} x --allow-dirty on/off, plus combinations of two dirty files, in real git repositories: exit code, "
                 "file bytes, commit count and `git show --stat` after `bumpver update --commit`; status parsing and the abort rule compared with the Coq model "
-                "on the status text git printed; non-trivial = distinct case with a dirty working tree")
+                "on the status text git printed; scenarios: `./` spelling, dirty config file, many dirty files, pre-commit hook + --allow-dirty, project in a sub-directory of the repository, "
+                "untracked files whose name is a prefix of a pattern file, a pattern file whose name is not valid UTF-8; non-trivial = distinct case with a dirty working tree")
     rep.exhaustive = True
     items, meta = [], []
     # the pattern file is also configured under the spelling "./a.txt" (bumpver normalises configured paths through pathlib's glob;
